@@ -5,6 +5,7 @@ go 1.25.5
 require (
 	github.com/dpb587/cursorio-go v0.0.0-20250717044249-e1d8c928b30d
 	github.com/dpb587/inspectjson-go v0.0.0-20251205150753-4113f6beb345
+	github.com/dpb587/kvstrings-go v0.0.0-20260105164922-00f00f4a51f0
 	github.com/dpb587/rdfkit-go v0.0.0
 	golang.org/x/net v0.49.0
 )
@@ -14,7 +15,6 @@ require (
 	github.com/cespare/permute/v2 v2.0.0-beta2 // indirect
 	github.com/dpb587/inspecthtml-go v0.0.0-20260203152537-760a8a60e2f6 // indirect
 	github.com/dpb587/inspectxml-go v0.0.0-20250415222439-71ac97da5967 // indirect
-	github.com/dpb587/kvstrings-go v0.0.0-20260105164922-00f00f4a51f0 // indirect
 	github.com/google/uuid v1.6.0 // indirect
 	github.com/tomnomnom/linkheader v0.0.0-20250811210735-e5fe3b51442e // indirect
 )
